@@ -7,8 +7,8 @@ package main
 
 import (
 	"fmt"
-	"strings"
 	"go/types"
+	"strings"
 
 	"golang.org/x/tools/go/ssa"
 )
